@@ -9,7 +9,32 @@ use std::collections::VecDeque;
 use crate::rng::{DetHasher, Rng};
 
 pub const RAW_CAP: usize = 30_000;
+
+thread_local! {
+    /// work budget (in transitions built) shared by all constructions of one simulation step; when
+    /// it is used up the constructions return None and the term is opaque for R-dfa
+    static BUDGET: std::cell::Cell<u64> = const { std::cell::Cell::new(u64::MAX) };
+}
+
+pub fn set_budget(n: u64) {
+    BUDGET.with(|b| b.set(n));
+}
+
+fn spend(n: usize) -> bool {
+    BUDGET.with(|b| {
+        let cur = b.get();
+        if cur < n as u64 {
+            b.set(0);
+            false
+        } else {
+            b.set(cur - n as u64);
+            true
+        }
+    })
+}
 pub const MIN_CAP: usize = 2_000;
+/// loop counters above this make a term opaque for R-dfa (R-match still applies)
+pub const LOOP_CAP: u32 = 80;
 
 /// Complete DFA over letters 0..k. Initial state is 0. Canonical form: minimal, all states
 /// reachable, states numbered in BFS order (letters ascending). Two canonical DFAs over the
@@ -143,6 +168,9 @@ impl Dfa {
         let mut i = 0;
         while i < order.len() {
             let (a, b) = order[i];
+            if !spend(k) {
+                return None;
+            }
             for c in 0..k {
                 let a2 = self.step(a, c);
                 let b2 = other.step(b, c);
@@ -190,6 +218,9 @@ impl Dfa {
         let mut i = 0;
         while i < order.len() {
             let (a, set) = order[i].clone();
+            if !spend(k * (set.len() + 1)) {
+                return None;
+            }
             for c in 0..k {
                 let a2 = self.step(a, c);
                 let mut s2: Vec<u32> = set.iter().map(|&b| other.step(b, c)).collect();
@@ -234,6 +265,9 @@ impl Dfa {
         let mut i = 0;
         while i < order.len() {
             let set = order[i].clone();
+            if !spend(k * (set.len() + 1)) {
+                return None;
+            }
             for c in 0..k {
                 let mut s2: Vec<u32> = set.iter().map(|&q| self.step(q, c)).collect();
                 if s2.iter().any(|&q| self.fin[q as usize]) {
@@ -274,7 +308,7 @@ impl Dfa {
 
     /// L^n (n-fold concatenation, L^0 = {eps})
     pub fn power(&self, n: u32) -> Option<Dfa> {
-        if n > 512 {
+        if n > LOOP_CAP {
             return None;
         }
         let mut r = Dfa::eps(self.k);
@@ -294,7 +328,7 @@ impl Dfa {
                     return Some(Dfa::empty(self.k));
                 }
                 let m = hi - lo;
-                if m > 512 {
+                if m > LOOP_CAP {
                     return None;
                 }
                 let o = self.opt()?;
